@@ -337,12 +337,3 @@ def parse_dump_as_parsed(parser, dumper, text):
     # C07: parsing with dump_as_parsed and converting back to text reproduces the input
     q = parser.parse(text, dump_as_parsed=True)
     assert dumper.dump(q, q._dump_format) == text
-
-
-def rec_text_round_trip(r, rparser):
-    # C14: the REAL str(recurrence) and the REAL TimeRecurrenceParser.parse composed
-    s = str(r)
-    q = rparser.parse(s)
-    assert q == r
-    assert hash(q) == hash(r)
-    assert str(q) == s
